@@ -325,7 +325,8 @@ class Executor:
                     v.children["*"] = ch
                 return ch, ()
             if isinstance(v, Agg) and v.kind == "box":
-                return v.fields[0], ()
+                r = v.fields[0]
+                return (r.cell, r.path) if isinstance(r, Ref) else (r, ())
             raise Unsupported("deref of %r" % type(v).__name__)
         if k == "field":
             c, p = self.resolve(st, place[1], fr)
@@ -348,6 +349,8 @@ class Executor:
     def step_get(self, v, el, name_hint="v"):
         if el[0] == "f":
             idx, ty = el[1], el[2] if len(el) > 2 else None
+            if isinstance(v, Agg) and v.kind == "box" and idx == 0:
+                return v.fields[0]
             if isinstance(v, Agg):
                 if idx >= len(v.fields):
                     if v.kind != "variant":
@@ -364,8 +367,20 @@ class Executor:
                 if key not in v.children:
                     v.children[key] = self.fresh_value(ty, "%s.%d" % (v.name, idx))
                 return v.children[key]
-            if isinstance(v, Ref) and idx == 0:
-                return v
+            if isinstance(v, Ref):
+                # wrappers modelled as identity (Pin, Arc, lock guards) can leave an extra reference
+                # level: a field projection on a reference goes through to the referent when the
+                # field's declared type is not itself a reference/pointer wrapper
+                t = self.deref_value(v)
+                wrapper = ty is not None and re.match(r"^(&|\*|std::ptr::|core::ptr::|std::pin::Pin|Pin<)", ty.strip())
+                if idx == 0 and (wrapper or ty is None and not isinstance(t, (Agg, Opaque, EnumV))):
+                    return v
+                if isinstance(t, (Agg, Opaque)) or (isinstance(t, EnumV) and t.upvars is not None):
+                    return self.step_get(t, el, name_hint)
+                if idx == 0:
+                    return v
+            if isinstance(v, Agg) and v.kind == "box" and idx == 0:
+                return v.fields[0]
             raise Unsupported("field of %s" % type(v).__name__)
         if el[0] == "dc":
             if isinstance(v, EnumV):
@@ -736,7 +751,14 @@ class Executor:
                 raise Unsupported("large repeat")
             return Seq([self.copy_value(v) for _ in range(n)])
         if k == "struct":
-            return Agg("struct", rv[1], [self.eval_operand(st, o) for _, o in rv[2]])
+            vals = [self.eval_operand(st, o) for _, o in rv[2]]
+            segs = re.sub(r"::<.*?>", "", rv[1]).split("::")
+            if len(segs) >= 2:
+                vs = self.variants_of(segs[-2])
+                if vs and any(vn == segs[-1] for vn, _ in vs):
+                    # struct-like enum variant  Enum::Variant { field: .. }
+                    return EnumV(segs[-2], segs[-1], None, {segs[-1]: Agg("variant", segs[-1], vals)})
+            return Agg("struct", rv[1], vals)
         if k == "variant":
             path = rv[1]
             ops = [self.eval_operand(st, o) for o in rv[2]]
